@@ -217,6 +217,73 @@ def restart_case(ck, i, k, who, edit=None):
     return True
 
 
+def flushes_under_adverse_kernels(ck, i):
+    """(a) SHUTDOWN asked for twice (second SIGINT) after the kernel refused one of the flushes of the first attempt: once a shutdown request has run without a refusal,
+    SPD and SAD are empty. (b) START-UP on a kernel that reports a flush that found nothing as ESRCH (older Linux), over every combination of empty / non-empty SPD
+    and SAD left behind: the daemon either refuses to start or, once it runs, nothing of the previous incarnation is left in either table."""
+    kind = ('shutdown-twice', 'start-up-esrch')[i % 2]
+    j = i // 2
+    if kind == 'shutdown-twice':
+        sim, a, b = S.make_pair(ck.seed * 67 + i, mode=('transport', 'tunnel')[j % 2])
+        S.handshake(sim, a, b)
+        which = j % 3                      # 0: FLUSHPOLICY refused, 1: FLUSHSA refused, 2: both
+        errno_ = (-12, -1, -16, -105)[(j // 3) % 4]
+        sim.case = {'family': 'flushes', 'kind': kind, 'refused': ('FLUSHPOLICY', 'FLUSHSA', 'both')[which], 'errno': errno_}
+        k = a.kernel
+        if not k.sad or not k.spd:
+            ck.count('flushes.setup_failed')
+            return
+        k.fault_types = {('FLUSHPOLICY',): {'FLUSHPOLICY': ('errno', errno_)}, ('FLUSHSA',): {'FLUSHSA': ('errno', errno_)},
+                         ('both',): {'FLUSHPOLICY': ('errno', errno_), 'FLUSHSA': ('errno', errno_)}}[(('FLUSHPOLICY', 'FLUSHSA', 'both')[which],)]
+        prev, S.W.cur = S.W.cur, a
+        raised = []
+        try:
+            for attempt in range(2):
+                try:
+                    a.ctl.close()
+                except BaseException as ex:
+                    if isinstance(ex, (S.LoopExit, KeyboardInterrupt)):
+                        raise
+                    raised.append(type(ex).__name__)
+                k.fault_types = {}           # the kernel refuses only during the first attempt
+        finally:
+            S.W.cur = prev
+        ck.count('flushes.shutdown_twice')
+        ck.nontrivial(('flushes', kind, which, errno_, tuple(raised)))
+        if k.spd or k.sad:
+            ck.violation(f"spd-or-sad-not-empty-after-a-second-shutdown-request-that-the-kernel-did-not-refuse:{sim.case['refused']}",
+                         {'spd': len(k.spd), 'sad': len(k.sad), 'first_attempt_raised': raised}, sim.case)
+        else:
+            ck.count('flushes.empty_after_the_second_shutdown_request')
+        return
+    spd_left, sad_left = bool(j & 1), bool(j & 2)
+    ca, cb = S.pair_conf(mode=('transport', 'tunnel')[(j // 4) % 2])
+    sim = S.Sim(ck.seed * 67 + i)
+    sim.case = {'family': 'flushes', 'kind': kind, 'spd_left_behind': spd_left, 'sad_left_behind': sad_left}
+    k = S.FakeKernel('old-linux')
+    k.esrch_on_empty_flush = True
+    stale = []
+    if sad_left:
+        for n_, proto in enumerate((50, 51, 50)):
+            key = (f'192.0.2.{40 + n_}', proto, bytes([9, 9, 9, n_]))
+            k.sad[key] = {'sa': {}, 'attrs': {}, 'req': -1}
+            stale.append(key)
+    if spd_left:
+        k.spd[(('stale',), 1)] = {'policy': {'index': 99, 'action': 0}, 'tmpl': []}
+    try:
+        ep = sim.add('A', [S.A4], ca, kernel=k)
+    except Exception as ex:
+        ck.count('flushes.start_up_refused')
+        ck.seen('flushes.start_up_refusals', (spd_left, sad_left, type(ex).__name__))
+        ck.nontrivial(('flushes', kind, spd_left, sad_left, 'refused'))
+        return
+    ck.count('flushes.started_on_a_kernel_that_reports_empty_flushes_as_esrch')
+    ck.nontrivial(('flushes', kind, spd_left, sad_left, 'started'))
+    left = [key for key in stale if key in k.sad]
+    if left or (('stale',), 1) in k.spd:
+        ck.violation(f"daemon-runs-with-{'ipsec-sas' if left else 'policies'}-of-the-previous-incarnation-still-in-the-kernel", {'sad_left': len(left), 'stale_policy': (('stale',), 1) in k.spd}, sim.case)
+
+
 def corners(net, port):
     addrs = sorted({str(net[0]), str(net[-1]), str(net[net.num_addresses // 2])})
     ports = [port] if port else [0, 1, 65535, 4321]
@@ -688,6 +755,9 @@ def run(ck):
     for i in range(48 if not thorough else 480):
         if ck.mine(i + 2):
             double_acquire(ck, i)
+    for i in range(64 if not thorough else 640):
+        if ck.mine(i + 4):
+            flushes_under_adverse_kernels(ck, i)
 
 
 def verdict(ck):
@@ -698,6 +768,8 @@ def verdict(ck):
     ck.floor('configurations with entries that leave the index to the daemon', c['spd.configurations_with_entries_without_an_explicit_index'], 60)
     ck.floor('answers of a responder that does not narrow an any-protocol entry with a port', c['lenient_responder.answers'], 40)
     ck.floor('lifetimes of SAs installed by a rekey compared with the entry', c['acquire.rekeyed_lifetimes_checked'], 20)
+    ck.floor('shutdowns asked for a second time after the kernel refused a flush of the first attempt', c['flushes.shutdown_twice'], 24)
+    ck.floor('start-ups on a kernel that reports a flush that found nothing as ESRCH (refused or started)', c['flushes.start_up_refused'] + c['flushes.started_on_a_kernel_that_reports_empty_flushes_as_esrch'], 24)
     ck.floor('configurations loaded', c['construction.configs'], 250)
     ck.floor('policies compared', c['spd.policies_checked'], 2000)
     ck.floor('restart points', c['restart.points'], 30)
